@@ -176,7 +176,8 @@ def setup_config(
     l_1 = config["simulation"]["tis_set"].get("lambda_minus_one", False)
     config["simulation"]["tis_set"]["lambda_minus_one"] = l_1
 
-    if quantis and not has_ens_engs:
+    # an empty interface list is rejected by check_config below
+    if quantis and not has_ens_engs and ens_engs:
         config["simulation"]["ensemble_engines"][0] = ["engine0"]
     accept_all = config["simulation"]["tis_set"].get("accept_all", False)
     config["simulation"]["tis_set"]["accept_all"] = accept_all
@@ -197,11 +198,14 @@ def check_config(config: dict) -> None:
     n_workers = config["runner"]["workers"]
     sh_moves = config["simulation"]["shooting_moves"]
     n_sh_moves = len(sh_moves)
-    intf_cap = config["simulation"]["tis_set"].get("interface_cap", False)
+    intf_cap = config["simulation"]["tis_set"].get("interface_cap", None)
     quantis = config["simulation"]["tis_set"].get("quantis", False)
     lambda_minus_one = config["simulation"]["tis_set"].get(
         "lambda_minus_one", False
     )
+
+    if n_ens < 2:
+        raise TOMLConfigError("Define at least 2 interfaces!")
 
     if lambda_minus_one is not False and lambda_minus_one >= intf[0]:
         raise TOMLConfigError(
@@ -210,9 +214,6 @@ def check_config(config: dict) -> None:
 
     if quantis and lambda_minus_one:
         raise TOMLConfigError("Cannot run quantis with lambda_minus_one!")
-
-    if n_ens < 2:
-        raise TOMLConfigError("Define at least 2 interfaces!")
 
     if n_workers > n_ens - 1:
         raise TOMLConfigError("Too many workers defined!")
@@ -228,14 +229,25 @@ def check_config(config: dict) -> None:
             f"N_interfaces {n_ens} > N_shooting_moves {n_sh_moves}!"
         )
 
-    if intf_cap and intf_cap > intf[-1]:
-        raise TOMLConfigError(
-            f"Interface_cap {intf_cap} > interface[-1]={intf[-1]}"
-        )
-    if intf_cap and intf_cap < intf[0]:
-        raise TOMLConfigError(
-            f"Interface_cap {intf_cap} < interface[-2]={intf[-2]}"
-        )
+    # a cap of 0.0 is a valid number, so do not rely on its truthiness
+    if intf_cap is not None:
+        if intf_cap > intf[-1]:
+            raise TOMLConfigError(
+                f"Interface_cap {intf_cap} > interface[-1]={intf[-1]}"
+            )
+        if intf_cap < intf[0]:
+            raise TOMLConfigError(
+                f"Interface_cap {intf_cap} < interface[0]={intf[0]}"
+            )
+        # ensemble i ([0-], [0+], [1+], ...) sits at interface max(i-1, 0);
+        # wire fencing needs a non-empty region [interface, cap)
+        for i, move in enumerate(sh_moves[:n_ens]):
+            intf_i = intf[max(i - 1, 0)]
+            if move == "wf" and intf_cap <= intf_i:
+                raise TOMLConfigError(
+                    f"Interface_cap {intf_cap} <= interface {intf_i}"
+                    + f" of wire fencing ensemble {i}"
+                )
 
     # engine checks
     unique_engines = []
